@@ -227,6 +227,10 @@ func (n *Node) References(ctx context.Context, refType uint32, dir ua.BrowseDire
 }
 
 func (n *Node) browseNext(ctx context.Context, results []*ua.BrowseResult) ([]*ua.ReferenceDescription, error) {
+	if len(results) == 0 {
+		// the request contains one node to browse: see the comment in Attribute
+		return nil, ua.StatusBadUnexpectedError
+	}
 	refs := results[0].References
 	for len(results[0].ContinuationPoint) > 0 {
 		req := &ua.BrowseNextRequest{
@@ -238,6 +242,9 @@ func (n *Node) browseNext(ctx context.Context, results []*ua.BrowseResult) ([]*u
 			return nil, err
 		}
 		results = resp.Results
+		if len(results) == 0 {
+			return nil, ua.StatusBadUnexpectedError
+		}
 		refs = append(refs, results[0].References...)
 	}
 	return refs, nil
